@@ -110,4 +110,128 @@ THEOREM DroppedZero == ASpec => []DroppedIsZero
   <1>1. LifeInv => DroppedIsZero
     BY DEF LifeInv, DroppedIsZero, Handles, P
   <1> QED BY <1>1, LifeInductive, PTL
+
+(* ---------------------------------------------------------------------------------------- *)
+(* Injectivity invariants (C03-lite, C09, C06) without bounds: the three observed maps --    *)
+(* (set, lineage, M', rnd) -> signature, (kind, set, lineage) -> bytes, (mode, ctx, M) -> M' *)
+(* -- stay injective under every action, whatever the arguments.                             *)
+Inj(f) == \A k1, k2 \in DOMAIN f : f[k1] = f[k2] => k1 = k2
+InjInv == Inj(sigof) /\ Inj(ser) /\ Inj(fmt)
+
+LEMMA ExtInj ==
+  ASSUME NEW f, NEW k, NEW v, Inj(f), k \in DOMAIN f => f[k] = v, \A k2 \in DOMAIN f : f[k2] = v => k2 = k
+  PROVE  Inj(Ext(f, k, v))
+  BY DEF Ext, Inj
+
+THEOREM InjInductive == ASpec => []InjInv
+<1>1. AInit => InjInv
+  BY DEF AInit, InjInv, Inj
+<1>2. InjInv /\ [ANext]_avars => InjInv'
+  <2> SUFFICES ASSUME InjInv, [ANext]_avars PROVE InjInv'
+    OBVIOUS
+  <2>a. Inj(sigof) /\ Inj(ser) /\ Inj(fmt)
+    BY DEF InjInv
+  <2>i. ASSUME NEW h, NEW mp, NEW draw, NEW sig, Issue(h, mp, draw, sig) PROVE Inj(sigof')
+    BY <2>i, <2>a, ExtInj DEF Issue
+  <2>f. ASSUME NEW mode, NEW ctx, NEW msg, NEW mp, FmtOK(mode, ctx, msg, mp), FmtNote(mode, ctx, msg, mp) PROVE Inj(fmt')
+    BY <2>f, <2>a, ExtInj DEF FmtOK, FmtNote
+  <2>1. ASSUME NEW h, NEW msg, NEW ctx, NEW ctxlen, NEW mode, NEW mp, NEW draw, NEW fault, NEW sig, Sign(h, msg, ctx, ctxlen, mode, mp, draw, fault, sig) PROVE InjInv'
+    <3>1. CASE ctxlen > 255
+      BY <2>1, <3>1, <2>a DEF Sign, InjInv
+    <3>2. CASE ~(ctxlen > 255) /\ fault # "none"
+      BY <2>1, <3>2, <2>a, <2>f DEF Sign, InjInv
+    <3>3. CASE ~(ctxlen > 255) /\ fault = "none"
+      BY <2>1, <3>3, <2>a, <2>f, <2>i DEF Sign, InjInv
+    <3> QED BY <3>1, <3>2, <3>3
+  <2>2. ASSUME NEW h, NEW mp, NEW draw, NEW sig, SignInternal(h, mp, draw, sig) PROVE InjInv'
+    BY <2>2, <2>a, <2>i DEF SignInternal, InjInv
+  <2>3. ASSUME NEW h, NEW msg, NEW ctx, NEW ctxlen, NEW mode, NEW mp, NEW sig, Verify(h, msg, ctx, ctxlen, mode, mp, sig) PROVE InjInv'
+    <3>1. CASE ctxlen > 255
+      BY <2>3, <3>1, <2>a DEF Verify, InjInv
+    <3>2. CASE ~(ctxlen > 255)
+      BY <2>3, <3>2, <2>a, <2>f DEF Verify, InjInv
+    <3> QED BY <3>1, <3>2
+  <2>4. ASSUME NEW h, NEW bytes, Serialise(h, bytes) PROVE InjInv'
+    <3>1. Inj(ser')
+      BY <2>4, <2>a, ExtInj DEF Serialise
+    <3> QED BY <2>4, <2>a, <3>1 DEF Serialise, InjInv
+  <2>5. ASSUME UNCHANGED << sigof, ser, fmt >> PROVE InjInv'
+    BY <2>5, <2>a DEF InjInv
+  <2>6. CASE UNCHANGED avars
+    BY <2>6, <2>5 DEF avars
+  <2>7. ASSUME NEW set, NEW seed, NEW hpk, NEW hsk, KeyGenSeed(set, seed, hpk, hsk) PROVE InjInv'
+    BY <2>7, <2>5 DEF KeyGenSeed
+  <2>8. ASSUME NEW set, NEW draw, NEW fault, NEW hpk, NEW hsk, KeyGenRng(set, draw, fault, hpk, hsk) PROVE InjInv'
+    BY <2>8, <2>5 DEF KeyGenRng
+  <2>9. ASSUME NEW h, NEW mp, NEW sig, VerifyInternal(h, mp, sig) PROVE InjInv'
+    BY <2>9, <2>5 DEF VerifyInternal
+  <2>10. ASSUME NEW fault, NEW at, Dudect(fault, at) PROVE InjInv'
+    BY <2>10, <2>5 DEF Dudect
+  <2>11. ASSUME NEW kind, NEW set, NEW bytes, NEW accept, NEW h, Deserialise(kind, set, bytes, accept, h) PROVE InjInv'
+    BY <2>11, <2>5 DEF Deserialise
+  <2>12. ASSUME NEW hsk, NEW hpk, Derive(hsk, hpk) PROVE InjInv'
+    BY <2>12, <2>5 DEF Derive
+  <2>13. ASSUME NEW h, NEW h2, Clone(h, h2) PROVE InjInv'
+    BY <2>13, <2>5 DEF Clone
+  <2>14. ASSUME NEW h, Drop(h) PROVE InjInv'
+    BY <2>14, <2>5 DEF Drop
+  <2> QED
+    BY <2>1, <2>2, <2>3, <2>4, <2>6, <2>7, <2>8, <2>9, <2>10, <2>11, <2>12, <2>13, <2>14 DEF ANext
+<1> QED
+  BY <1>1, <1>2, PTL DEF ASpec
+
+THEOREM Injective == ASpec => [](SigFunctional /\ SerInjective /\ FmtInjective)
+  <1>1. InjInv => (SigFunctional /\ SerInjective /\ FmtInjective)
+    BY DEF InjInv, Inj, SigFunctional, SerInjective, FmtInjective
+  <1> QED BY <1>1, InjInductive, PTL
+
+(* ---------------------------------------------------------------------------------------- *)
+(* Nothing is ever revoked or re-decided: the set of issued tuples only grows and a          *)
+(* (key, M', rnd) that was signed once keeps its signature -- so a TRUE verdict stays TRUE    *)
+(* and signing stays deterministic over the whole history, not only between adjacent calls.   *)
+Stable == /\ issued \subseteq issued'
+          /\ \A k \in DOMAIN sigof : k \in DOMAIN sigof' /\ sigof'[k] = sigof[k]
+THEOREM Monotone == ASpec => [][Stable]_avars
+<1>1. ASSUME [ANext]_avars PROVE [Stable]_avars
+  <2>i. ASSUME NEW h, NEW mp, NEW draw, NEW sig, Issue(h, mp, draw, sig) PROVE Stable
+    BY <2>i DEF Issue, Stable, Ext
+  <2>u. ASSUME UNCHANGED << issued, sigof >> PROVE Stable
+    BY <2>u DEF Stable
+  <2>1. ASSUME NEW h, NEW msg, NEW ctx, NEW ctxlen, NEW mode, NEW mp, NEW draw, NEW fault, NEW sig, Sign(h, msg, ctx, ctxlen, mode, mp, draw, fault, sig) PROVE Stable
+    <3>1. CASE ctxlen > 255
+      BY <2>1, <3>1, <2>u DEF Sign
+    <3>2. CASE ~(ctxlen > 255) /\ fault # "none"
+      BY <2>1, <3>2, <2>u DEF Sign
+    <3>3. CASE ~(ctxlen > 255) /\ fault = "none"
+      BY <2>1, <3>3, <2>i DEF Sign
+    <3> QED BY <3>1, <3>2, <3>3
+  <2>2. ASSUME NEW h, NEW mp, NEW draw, NEW sig, SignInternal(h, mp, draw, sig) PROVE Stable
+    BY <2>2, <2>i DEF SignInternal
+  <2>3. CASE UNCHANGED avars
+    BY <2>3, <2>u DEF avars
+  <2>4. ASSUME NEW set, NEW seed, NEW hpk, NEW hsk, KeyGenSeed(set, seed, hpk, hsk) PROVE Stable
+    BY <2>4, <2>u DEF KeyGenSeed
+  <2>5. ASSUME NEW set, NEW draw, NEW fault, NEW hpk, NEW hsk, KeyGenRng(set, draw, fault, hpk, hsk) PROVE Stable
+    BY <2>5, <2>u DEF KeyGenRng
+  <2>6. ASSUME NEW h, NEW msg, NEW ctx, NEW ctxlen, NEW mode, NEW mp, NEW sig, Verify(h, msg, ctx, ctxlen, mode, mp, sig) PROVE Stable
+    BY <2>6, <2>u DEF Verify
+  <2>7. ASSUME NEW h, NEW mp, NEW sig, VerifyInternal(h, mp, sig) PROVE Stable
+    BY <2>7, <2>u DEF VerifyInternal
+  <2>8. ASSUME NEW fault, NEW at, Dudect(fault, at) PROVE Stable
+    BY <2>8, <2>u DEF Dudect
+  <2>9. ASSUME NEW h, NEW bytes, Serialise(h, bytes) PROVE Stable
+    BY <2>9, <2>u DEF Serialise
+  <2>10. ASSUME NEW kind, NEW set, NEW bytes, NEW accept, NEW h, Deserialise(kind, set, bytes, accept, h) PROVE Stable
+    BY <2>10, <2>u DEF Deserialise
+  <2>11. ASSUME NEW hsk, NEW hpk, Derive(hsk, hpk) PROVE Stable
+    BY <2>11, <2>u DEF Derive
+  <2>12. ASSUME NEW h, NEW h2, Clone(h, h2) PROVE Stable
+    BY <2>12, <2>u DEF Clone
+  <2>13. ASSUME NEW h, Drop(h) PROVE Stable
+    BY <2>13, <2>u DEF Drop
+  <2> QED
+    BY <1>1, <2>1, <2>2, <2>3, <2>4, <2>5, <2>6, <2>7, <2>8, <2>9, <2>10, <2>11, <2>12, <2>13 DEF ANext
+<1> QED
+  BY <1>1, PTL DEF ASpec
+
 =============================================================================
